@@ -229,25 +229,30 @@ class Conn:
 class Check(PropertyCheck):
     prop = "C24"
     design_ref = "§5 C24"
-    level_text = ("Lean theorem creds_only_direct_to_proxy_or_reverse_target over ALL histories (any number of client "
-                  "connections, any interleaving, every mode and request scheme, with and without upstream_auth): every "
-                  "write that carries the configured credential is (i) mitmproxy's CONNECT to the upstream proxy, (ii) a "
-                  "plain-HTTP request written directly to the upstream proxy in upstream mode by a connection that is not in "
-                  "a CONNECT tunnel, or (iii) a request to the reverse target in reverse mode; plus no_creds_through_tunnel_or_"
-                  "other_modes and no_creds_without_option; proved by trace induction with the invariant 'a connection in a "
-                  "tunnel phase is in UpstreamAuth.tunneled'. The model (UpstreamAuth decisions composed with the routing of "
-                  "HttpLayer.get_connection / HttpUpstreamProxy) is tied to the code end to end through the full layer stack "
-                  "with the real NextLayer, UpstreamAuth and Proxyserver addons: per step, the place (proxy / through the "
-                  "tunnel / reverse target / origin), kind (CONNECT / request) and credential field of every request head "
-                  "written upstream, and the client-side outcome.")
+    level_text = ("Lean theorems over ALL histories (any number of client connections, any interleaving, every mode and request "
+                  "scheme, with and without upstream_auth). On the Dest-level model: creds_only_direct_to_proxy_or_reverse_target, "
+                  "no_creds_through_tunnel_or_other_modes, no_creds_without_option, creds_still_sent_to_proxy_and_reverse_target. "
+                  "On the (round 3) ROUTING model, which predicts for every request the upstream connection that carries it — "
+                  "address, tls, sni, via, CONNECT-first, reuse of an earlier connection — as HttpLayer.get_connection / "
+                  "HttpUpstreamProxy.make decide it, and derives 'who reads a write' from those parameters: route_creds_confined / "
+                  "route_creds_only_to_proxy_or_reverse_target (trace induction with a per-connection invariant: tunnel phase ⇒ member "
+                  "of UpstreamAuth.tunneled; pool connections have CONNECT-first = via ∧ tls; via ⇒ upstream mode), "
+                  "route_conn_matches_request (spec of the connection handed out, reuse included), transparent_dest_ignores_host "
+                  "(Host vs destination), scheme_change_uses_other_connection. Both models are tied end to end through the full layer "
+                  "stack with the real NextLayer, UpstreamAuth, Proxyserver (and TlsConfig) addons: per step the place, kind and "
+                  "credential field of every request head written upstream (TLS sessions decrypted by an in-memory origin), the "
+                  "client-side outcome, and — predicted, not taken from observation — flow.server_conn's address, tls, sni, via, its "
+                  "order of first use and whether it was reused.")
     level_note = ("trusted: Lean kernel; hand model tied differentially (validated, not verified). TLS towards the origin IS "
                   "driven for https-scheme requests: an in-memory TLS server (ssl.MemoryBIO, certificate from a CertStore under "
                   ".work/c24, real TlsConfig addon answering tls_start_server) terminates the session that mitmproxy opens "
                   "directly (regular mode) or through its own CONNECT at the upstream proxy (upstream mode), and the decrypted "
                   "request heads are scanned. NOT driven: TLS spoken by the client inside its own CONNECT tunnel (client "
                   "tunnels carry plain HTTP/1.1: CONNECT to :80 and :443 followed by plain requests), https upstream proxies / "
-                  "https reverse targets, HTTP/2, request bodies. The model emits a CONNECT for every https request (the harness "
-                  "uses a fresh origin per https request; connection reuse would only remove writes). UpstreamAuth.tunneled is a "
+                  "https reverse targets, HTTP/2, request bodies, ALPN (always None here). The Dest-level model emits a CONNECT for every "
+                  "https request (fresh origin per https request); repeated https requests to one origin (TLS connection reuse) are "
+                  "compared with the routing model only. The two Lean models are each tied to the code; they are not proved "
+                  "equivalent to each other. UpstreamAuth.tunneled is a "
                   "WeakSet: the model never removes entries and assumes client ids are not reused. With HTTP/2 between client and "
                   "mitmproxy a CONNECT stream marks the whole client connection as tunnelled, so later plain-http streams of that "
                   "connection get no credential (fails closed).")
